@@ -55,6 +55,11 @@ VariantList == <<
   [class |-> "surplus_R", kind |-> "R", input |-> EncodeGroups(AgeHrp, G32 \o <<0>>)],
   [class |-> "surplus_I", kind |-> "I", input |-> EncodeGroups(SecretHrp, G32 \o <<0>>)],
   [class |-> "surplus2_R", kind |-> "R", input |-> EncodeGroups(AgeHrp, G32 \o <<0, 0>>)],
+  [class |-> "bech32m_R", kind |-> "R", input |-> EncodeGroupsConst(AgeHrp, G32, 734539939)],
+  [class |-> "bech32m_I", kind |-> "I", input |-> EncodeGroupsConst(SecretHrp, G32, 734539939)],
+  [class |-> "checksum_const0_R", kind |-> "R", input |-> EncodeGroupsConst(AgeHrp, G32, 0)],
+  [class |-> "checksum_const2_I", kind |-> "I", input |-> EncodeGroupsConst(SecretHrp, G32, 2)],
+  [class |-> "bech32m_PR", kind |-> "PR", input |-> EncodeGroupsConst(PluginRcpPrefix \o <<120>>, PayloadG(3), 734539939)],
   [class |-> "sep_moved_R", kind |-> "R", input |-> <<97,103,49,101>> \o SubSeq(RStr, 5, Len(RStr))],
   [class |-> "truncated_R", kind |-> "R", input |-> SubSeq(RStr, 1, Len(RStr) - 1)],
   [class |-> "extended_R", kind |-> "R", input |-> RStr \o <<113>>],
